@@ -91,6 +91,25 @@ def text_env_stream(res):
                                      'listed %r' % (env, pack, want, names)))
 
 
+def declared_stream(res):
+    """names the document declares itself are not listed, whatever form the
+    declaration takes"""
+    for tex, unknown in (
+            ('\\newtheorem*{rem}{Remark}\n\\begin{rem} Text \\foo \\end{rem}\n', ['\\foo']),
+            ('\\newtheorem{thm}{Theorem}[section]\\newtheorem{lem}[thm]{Lemma}\n'
+             '\\begin{thm} A \\end{thm}\\begin{lem} B \\end{lem} \\foo\n', ['\\foo']),
+            ('\\newcommand*{\\ma}{x}\\renewcommand*{\\mb}[1]{#1}\\def\\mc{y} \\ma \\mb{z} \\mc \\foo\n',
+             ['\\foo'])):
+        for pack in ('*', ''):
+            c = parsecase.T2T(tex, lang='en', pack=pack, unkn=True, files={})
+            im = parsecase.run_t2t(c)
+            res.count('declared', c.key())
+            names = [n for n in im[1][1].split('\n') if n] if im[0] == 'OK' else [repr(im[:2])]
+            if names != unknown:
+                res.failures.append(('c19-declared:%r:%s' % (tex, pack), c.json(),
+                                     'undeclared names used: %r, listed: %r' % (unknown, names)))
+
+
 def repl_stream(res):
     """a replacement list never rewrites the list of names"""
     from yalafi import tex2txt
@@ -149,6 +168,7 @@ def run(tier, seed, build, res):
                      sample_rule=lambda c, im: bool(im[1][1].strip()))
     repl_stream(res)
     text_env_stream(res)
+    declared_stream(res)
     shell_stream(rng, res, 3)
 
 
